@@ -645,6 +645,24 @@ pub fn gen_scenarios(seed: u64, tier: &str) -> Vec<Scenario> {
                 pr.truncate(pos + 1);
             }
         }
+        if id % 10 == 9 {
+            // directed: lock hand-off with a third writer.  p0 holds the tree lock (request on another path) while p1 queues
+            // on it; p0 releases; p1 passes its compare and stops before its rename; p2 arrives and must wait for p1.
+            // p1 and p2 write the shared path with the same (current) expectation: one of them may commit.
+            let other = *paths.iter().find(|p| **p != shared).unwrap();
+            let cur = init.iter().find(|(p, _)| *p == shared).map(|(_, c)| c.clone());
+            let b1 = content(&mut r, &pool[..6]);
+            let mut b2 = content(&mut r, &pool[..6]);
+            if b2 == b1 { b2.push(b'!'); }
+            let p0 = if r.chance(1, 2) { Req::Put { path: other.to_string(), exp: None, decl: b1.clone(), len: b1.len() as u64, pieces: vec![b1.clone()] } } else { Req::Del { path: other.to_string(), exp: None } };
+            let p1 = Req::Put { path: shared.to_string(), exp: cur.clone(), decl: b1.clone(), len: b1.len() as u64, pieces: vec![b1.clone()] };
+            let p2 = if r.chance(2, 3) { Req::Put { path: shared.to_string(), exp: cur.clone(), decl: b2.clone(), len: b2.len() as u64, pieces: vec![b2.clone()] } } else { Req::Del { path: shared.to_string(), exp: cur.clone() } };
+            let u = |i: usize, c: &str| Pol::Until(i, c.to_string());
+            let su = |i: usize, c: &str| Pol::StepUntil(i, c.to_string());
+            let policy = vec![u(0, "flock"), Pol::Step(0), u(1, "flock"), Pol::Step(1), su(0, "funlock"), Pol::Step(0), u(1, "rename"), u(2, "funlock"), Pol::Step(2)];
+            out.push(Scenario { id, init, progs: vec![vec![p0], vec![p1], vec![p2]], policy, class: "directed:lock-handoff".into() });
+            continue;
+        }
         let steps = 20 + r.below(60) as usize;
         let kill_at = if r.chance(1, 4) { Some(r.below(steps as u64) as usize) } else { None };
         let policy: Vec<Pol> = (0..steps).map(|k| { let i = r.below(nproc as u64) as usize; if Some(k) == kill_at { Pol::Kill(i) } else { Pol::Step(i) } }).collect();
